@@ -85,7 +85,7 @@ pub open spec fn growth_inside(cur: int, lower_init: bool, lower_out: u128, lowe
     let above = if !upper_init { 0u128 } else if cur < upper_index { upper_out } else { wsub(global, upper_out) };
     wsub(wsub(global, below), above)
 }
-//@ fn manager/tick_manager.rs next_fee_growths_inside -> r
+//@ fn manager/tick_manager.rs next_fee_growths_inside -> r tags=C07,C12,C01
     ensures
         r.0 == growth_inside(tick_current_index as int, tick_lower.initialized, tick_lower.fee_growth_outside_a, tick_lower_index as int,
                              tick_upper.initialized, tick_upper.fee_growth_outside_a, tick_upper_index as int, fee_growth_global_a),
@@ -93,7 +93,7 @@ pub open spec fn growth_inside(cur: int, lower_init: bool, lower_out: u128, lowe
                              tick_upper.initialized, tick_upper.fee_growth_outside_b, tick_upper_index as int, fee_growth_global_b),
 //@ end
 
-//@ fn manager/tick_manager.rs next_reward_growths_inside -> r
+//@ fn manager/tick_manager.rs next_reward_growths_inside -> r tags=C11,C12,C01
     ensures forall|k: int| 0 <= k < 3 ==> #[trigger] r[k] == (if reward_infos[k].is_init() {
             growth_inside(tick_current_index as int, tick_lower.initialized, tick_lower.reward_growths_outside[k], tick_lower_index as int,
                           tick_upper.initialized, tick_upper.reward_growths_outside[k], tick_upper_index as int, reward_infos[k].growth_global_x64) } else { 0u128 }),
@@ -163,7 +163,7 @@ pub open spec fn reward_infos_spec(w: Whirlpool, next: int, r: Result<[Whirlpool
         Ok(ri) => next >= cur && forall|k: int| 0 <= k < 3 ==> #[trigger] ri[k] == (WhirlpoolRewardInfo { growth_global_x64: next_growth(w, next, k), ..w.reward_infos[k] }),
     }
 }
-//@ fn manager/whirlpool_manager.rs next_whirlpool_reward_infos -> r
+//@ fn manager/whirlpool_manager.rs next_whirlpool_reward_infos -> r tags=C11,C12,C01
     ensures reward_infos_spec(*whirlpool, next_timestamp as int, r),
 //@ rewrite_iter_mut
 //@ loop 0
@@ -174,7 +174,7 @@ pub open spec fn reward_infos_spec(w: Whirlpool, next: int, r: Result<[Whirlpool
         decreases 3 - reward_info_it,
 //@ end
 
-//@ fn manager/whirlpool_manager.rs next_whirlpool_liquidity -> r
+//@ fn manager/whirlpool_manager.rs next_whirlpool_liquidity -> r tags=C05,C12,C01
     ensures
         ({
             let in_range = tick_lower_index <= whirlpool.tick_current_index < tick_upper_index;
